@@ -250,6 +250,11 @@ func (c *connection) onProcess(onConnect OnConnect, onRequest OnRequest) (proces
 		// double check close state
 		if c.status(closing) != 0 && c.lock(processing) {
 			// poller will get the processing lock failed, here help poller do closeCallback
+			if c.status(closing) == poller && onRequest != nil && c.Reader().Len() > 0 {
+				// input arrived together with the peer's close after the length check above:
+				// it must still be offered to onRequest before the callbacks run.
+				goto START
+			}
 			// fd must already detach by poller
 			c.closeCallback(false, false)
 			panicked = false
